@@ -319,10 +319,10 @@ static Rec extract_and_judge(Rng &r, bool present, const std::string &raw, const
   if (r.chance(1, 4))
     c.put("x-other", "1");
   Caller caller = make_caller(r);
-  context_api::Context out = prop().Extract(c, caller.ctx);
-  c.kill(r.coin());  // every view the propagator saw is now changed or freed
   std::string witness = std::string("traceparent ") + (present ? "'" + vf::show(raw, 200) + "'" : "(absent)") +
                         (ts.present ? " tracestate '" + vf::show(ts.raw, 120) + "'" : "") + " caller=" + caller.kind;
+  context_api::Context out = extract_stable(prop(), c, caller, rec.cls, witness);
+  c.kill(r.coin());  // every view the propagator saw is now changed or freed
   Outcome o = judge_returned(caller, out, rec.cls, witness);
   R.count("extracts");
   R.count(std::string("extracts_") + origin);
@@ -498,7 +498,7 @@ static void inject_roundtrip(Rng &r, const std::string &tid, const std::string &
   if (rec.verdict == kReject)
     return;  // already reported above as inject-form; extracting it proves nothing
   Caller caller = make_caller(r);
-  context_api::Context out = prop().Extract(c, caller.ctx);
+  context_api::Context out = extract_stable(prop(), c, caller, "roundtrip", witness);
   c.kill(r.coin());
   Outcome o = judge_returned(caller, out, "roundtrip", witness);
   R.count("roundtrips");
